@@ -36,6 +36,37 @@ class ValuePropBackend(enum.Enum):
 _VALUE_PROP_BACKEND: ValuePropBackend = ValuePropBackend.REFERENCE
 
 
+def _check(typ: Type, value: "PropValueType") -> bool:
+    """Is ``value`` a value of ``typ``? Containers are checked element-wise against the declared element type."""
+    if isinstance(typ, Tensor):
+        if not (
+            isinstance(value, np.ndarray)
+            and Shape.from_simple(value.shape) <= typ._shape
+        ):
+            return False
+        # Strings need some special handling
+        if value.dtype == object and typ.dtype == str:
+            return all(isinstance(elem, str) for elem in value.flat)
+        return value.dtype.type is typ.dtype.type
+    elif isinstance(typ, Sequence):
+        return isinstance(value, list) and all(
+            isinstance(elem, PropValue)
+            and elem.type._subtype(typ.elem_type)
+            and _check(typ.elem_type, elem.value)
+            for elem in value
+        )
+    elif isinstance(typ, Optional):
+        return value is None or (
+            isinstance(value, PropValue) and _check(typ.elem_type, value.value)
+        )
+    warnings.warn(
+        InferenceWarning(
+            f"Unknown or unspecified type for propagated value: {typ!r}"
+        )
+    )
+    return True
+
+
 @dataclass(frozen=True)
 class PropValue:
     """Propagated value given to a Var, which has a run-time value known at compile-time.
@@ -74,28 +105,7 @@ class PropValue:
         return f"<Propagated {self.value}: {self.type}>"
 
     def check(self) -> bool:
-        if isinstance(self.type, Tensor):
-            if not (
-                isinstance(self.value, np.ndarray)
-                and Shape.from_simple(self.value.shape) <= self.type._shape
-            ):
-                return False
-            # Strings need some special handling
-            if self.value.dtype == object and self.type.dtype == str:
-                return True
-            return self.value.dtype.type is self.type.dtype.type
-        elif isinstance(self.type, Sequence):
-            return isinstance(self.value, list) and all(
-                elem.type._subtype(self.type.elem_type) for elem in self.value
-            )
-        elif isinstance(self.type, Optional):
-            return self.value is None or isinstance(self.value, PropValue)
-        warnings.warn(
-            InferenceWarning(
-                f"Unknown or unspecified type for propagated value: {self.type!r}"
-            )
-        )
-        return True
+        return _check(self.type, self.value)
 
     @classmethod
     def from_ref_value(cls, typ: Type, value: RefValue) -> "PropValue":
